@@ -2730,10 +2730,10 @@ func (db *DB) Export(ctx context.Context, dst io.Writer) (ltx.Pos, error) {
 		walFrameOffsets[k] = v
 	}
 
-	// Release write lock, if acquired.
-	gs.write.Unlock()
-
 	// Acquire the CKPT & READ locks to prevent checkpointing, in case this is in WAL mode.
+	// The write lock stays held until they are all acquired: if it were released
+	// first, a commit followed by a checkpoint could slip in and the pages read
+	// below would no longer belong to the position captured above.
 	if err := gs.ckpt.RLock(ctx); err != nil {
 		return pos, fmt.Errorf("acquire CKPT read lock: %w", err)
 	}
@@ -2755,6 +2755,9 @@ func (db *DB) Export(ctx context.Context, dst io.Writer) (ltx.Pos, error) {
 	if err := gs.read4.RLock(ctx); err != nil {
 		return pos, fmt.Errorf("acquire READ4 read lock: %w", err)
 	}
+
+	// Release write lock, if acquired.
+	gs.write.Unlock()
 
 	// Open database file.
 	dbFile, err := db.os.Open("EXPORT:DB", db.DatabasePath())
